@@ -110,6 +110,7 @@ class Rational:
         self._known_terms = [to_z3_real(_num_parts(t)[0]) for t in nonzero_terms]
         self.hyps += [t != 0 for t in self._known_terms]
         self._known_polys = None
+        self._lits = None
         self.relations = []
         for s_term, x_term in relations:
             self.relations.append((s_term, x_term))
@@ -250,6 +251,8 @@ class Rational:
             if r2.is_const() and all(self._atom_nonzero(a, min(timeout, GUARD_TIMEOUT_MS)) for a in m2):
                 continue
             if not self._z3_nonzero(_poly_to_z3(f, self.cv), timeout):
+                if _DEBUG:
+                    print(f"[C35_rational] factor not shown non-zero: {_poly_to_z3(f, self.cv)}\n   known: {[str(_poly_to_z3(k, self.cv)) for k in self._known_polys]}", flush=True)
                 return False
         return True
 
@@ -264,6 +267,10 @@ class Rational:
             syms = {a: sympy.Symbol(f"a{a}") for a in atoms}
             expr = sympy.Add(*[sympy.Rational(c.numerator, c.denominator) * sympy.Mul(*[syms[a] ** e for a, e in mono]) for mono, c in poly.t.items()])
             coeff, facs = sympy.factor_list(expr)
+            if _DEBUG:
+                print(f"[C35_rational] factor_list: {len(poly.t)} terms -> {[(str(f)[:80], m) for f, m in facs]}", flush=True)
+                if len(facs) == 1 and len(poly.t) > 5:
+                    print("   atoms:", {a: str(self.cv.atom_terms[a])[:60] for a in atoms}, "\n   expr:", expr, "\n   relations:", [(str(a)[:60], str(b)[:60]) for a, b in self.relations], flush=True)
             out = [ringnf.Poly.const(Fraction(int(sympy.numer(coeff)), int(sympy.denom(coeff))))]
             order = [syms[a] for a in atoms]
             for f, mult in facs:
@@ -277,9 +284,13 @@ class Rational:
             for f in out:
                 prod = prod * f
             if not (prod - poly).is_zero():
+                if _DEBUG:
+                    print("[C35_rational] factorisation product mismatch", flush=True)
                 return [poly]
             return out
-        except Exception:  # noqa: BLE001
+        except Exception as e:  # noqa: BLE001
+            if _DEBUG:
+                print(f"[C35_rational] factorisation failed: {e!r}", flush=True)
             return [poly]
 
     def inner_divisors(self, term):
@@ -320,11 +331,23 @@ class Rational:
             self.guards[k] = self._guard(g)
         return self.guards[k]
 
+    def _literal(self, g):
+        """is g (or its negation) literally among the assumptions / path condition / hypotheses?"""
+        if self._lits is None:
+            self._lits = {}
+            for f in list(self.c.assumptions) + list(self.c.pathcond) + self.hyps:
+                self._lits[z3.simplify(f).get_id()] = True
+                self._lits[z3.simplify(z3.Not(f)).get_id()] = False
+        return self._lits.get(z3.simplify(g).get_id())
+
     def _guard(self, g):
         if z3.is_true(g):
             return True
         if z3.is_false(g):
             return False
+        lit = self._literal(g)
+        if lit is not None:
+            return lit
         if z3.is_not(g):
             r = self.guard(g.children()[0])
             return None if r is None else (not r)
@@ -383,7 +406,13 @@ class Rational:
                 elif d is False:
                     r = go(b)
                 else:
-                    r = z3.If(g, go(a), go(b))
+                    ra, rb = go(a), go(b)
+                    if ra.get_id() == rb.get_id():
+                        r = ra
+                    elif z3.is_arith(ra) and self.is_zero(to_z3_real(ra) - to_z3_real(rb)) and all(self.nonzero(dv) for dv in self.inner_divisors(ra) + self.inner_divisors(rb)):
+                        r = rb  # both branches denote the same value: the selection is that value
+                    else:
+                        r = z3.If(g, ra, rb)
             elif z3.is_app(e) and e.num_args() > 0:
                 old = e.children()
                 ch = [go(x) for x in old]
